@@ -398,13 +398,16 @@ func (c *Conn) reader(ctx context.Context) (_ MessageType, _ io.Reader, err erro
 
 	c.msgReader.reset(ctx, h)
 
-	return MessageType(h.opcode), &msgReaderHandle{mr: c.msgReader}, nil
+	return MessageType(h.opcode), &msgReaderHandle{mr: c.msgReader, ctx: ctx, gen: c.msgReader.gen}, nil
 }
 
-// msgReaderHandle is what a single call of Reader returns. Once it has reported the end
-// of its message it touches neither the connection nor the context of that message again.
+// msgReaderHandle is what a single call of Reader returns. It is bound to one message:
+// once that message has ended, or a later Reader call has started the next one, it touches
+// neither the connection nor the message again and keeps returning io.EOF.
 type msgReaderHandle struct {
 	mr  *msgReader
+	ctx context.Context
+	gen uint64
 	eof bool
 }
 
@@ -412,7 +415,7 @@ func (h *msgReaderHandle) Read(p []byte) (int, error) {
 	if h.eof {
 		return 0, io.EOF
 	}
-	n, err := h.mr.Read(p)
+	n, err := h.mr.Read(h.ctx, h.gen, p)
 	if err == io.EOF {
 		h.eof = true
 	}
@@ -435,12 +438,15 @@ type msgReader struct {
 	maskKey       uint32
 	// err is the error of the frame reader that ended the current message early.
 	err error
+	// gen counts the messages started. It is protected by readMu.
+	gen uint64
 
 	// util.ReaderFunc(mr.Read) to avoid continuous allocations.
 	readFunc util.ReaderFunc
 }
 
 func (mr *msgReader) reset(ctx context.Context, h header) {
+	mr.gen++
 	mr.ctx = ctx
 	mr.err = nil
 	mr.flate = h.rsv1
@@ -459,8 +465,9 @@ func (mr *msgReader) setFrame(h header) {
 	mr.maskKey = h.maskKey
 }
 
-func (mr *msgReader) Read(p []byte) (n int, err error) {
-	err = mr.c.readMu.lock(mr.ctx)
+// Read reads from message gen under ctx, the context its reader was created with.
+func (mr *msgReader) Read(ctx context.Context, gen uint64, p []byte) (n int, err error) {
+	err = mr.c.readMu.lock(ctx)
 	if err != nil {
 		if mr.err != nil {
 			// The error that ended the message, e.g. a received close frame, may have been
@@ -470,6 +477,12 @@ func (mr *msgReader) Read(p []byte) (n int, err error) {
 		return 0, fmt.Errorf("failed to read: %w", err)
 	}
 	defer mr.c.readUnlock()
+
+	if gen != mr.gen {
+		// A later Reader call has started the next message, which it only
+		// does once this one has been read to its end.
+		return 0, io.EOF
+	}
 
 	n, err = mr.limitReader.Read(p)
 	if mr.flate && mr.flateContextTakeover() {
